@@ -186,6 +186,8 @@ def recipe_st(draw):
         'added': added,
         # optional extra file of EXTENT_MAX + huge bytes (> 4 GiB, multi-extent), added with add_fp and never written
         'huge': draw(st.sampled_from([None, None, None, 1, 2048, 5000])),
+        # parsed images without UDF: open an independently re-mastered ("foreign") version (vf/indep/remaster.py) instead
+        'foreign': draw(st.one_of(st.none(), st.integers(0, 1 << 30))),
     }
 
 
@@ -364,6 +366,17 @@ class Interp:
                 iso.write_fp(out)
                 iso.close()
                 img = out.getvalue()
+                if r.get('foreign') is not None and not r['udf']:
+                    from vf import gen
+                    from vf.indep import remaster
+                    try:
+                        alt = remaster.remaster(img, gen.foreign_style(r['foreign']))
+                    except Exception:  # noqa  (harness module; counted)
+                        alt = None
+                        col.bump('remaster-failed')
+                    if alt is not None:
+                        img = alt
+                        self.classes.add('image:re-mastered')
                 self.cf = CountingFile(img)
                 iso = pycdlib.PyCdlib()
                 iso.open_fp(self.cf)
